@@ -1740,6 +1740,13 @@ func resolveIndex(v, index reflect.Value, indexAsStr string) (reflect.Value, err
 			return reflect.Value{}, fmt.Errorf("can't use %s (%s) as key for map of type %s", indexAsStr, indexVal.Type(), v.Type())
 		}
 		index = indexVal.Convert(v.Type().Key()) // noop in most cases, but not expensive
+		// a key that does not survive the conversion (300 as a uint8, 1.5 as an int, 65 as a
+		// string) is not a key of this map
+		switch k := index.Kind(); {
+		case k == reflect.String && indexVal.Kind() != reflect.String,
+			k >= reflect.Int && k <= reflect.Uintptr && index.Convert(indexVal.Type()).Interface() != indexVal.Interface():
+			return reflect.Value{}, nil
+		}
 		return indirectEface(v.MapIndex(index)), nil
 	case reflect.Ptr:
 		etyp := v.Type().Elem()
